@@ -6,7 +6,7 @@ CONSTANTS
   Init0 <- mcInit
   SrcVals = {"S0", "S1"}
   UserActs = {"edit", "build", "clean", "rules", "tamper", "deltarget", "delcache"}
-  Goals = {"", "t1"}
+  Goals = {"", "o.s"}
   MaxUser = 5
   FreeFrom = 99
   Script <- NoScript
